@@ -1,7 +1,7 @@
 (* Correspondence cases for C07: fee calculator vs VM cost per signer shape, the fee boundary, the
    admission decision on transactions valid / invalid in chosen respects, and block packing. *)
 From NG Require Import Common.Tactics Common.HarnessLib.
-From NG Require Export Admission.Fee Admission.Admit Mempool.Model Mempool.Spec.
+From NG Require Export Admission.Fee Admission.Admit Admission.Conflicts Mempool.Model Mempool.Spec.
 Open Scope N_scope.
 
 (* a witness as the harness made it: signer shape, verification script hashes to the signer, signatures good *)
@@ -16,6 +16,11 @@ Inductive case :=
 | CAdmit (base : N) (c : chainfacts) (t : txfacts) (ws : list hwit) (pre : list tx) (x : tx)
          (bal : list (payer * N)) (impl : option N)
     (* facts known by construction; [pre] = transactions already in the (private) pool; impl: None = pooled, Some class *)
+| CHist (base : N) (c : chainfacts) (mtb : N) (events : list (N * list N * list N)) (h : N) (signers : list N)
+        (t : txfacts) (ws : list hwit) (x : tx) (bal : list (payer * N)) (impl : option N)
+    (* on-chain transactions (block index, signers, hashes named in Conflicts) in chain order; then the transaction
+       with hash h and these signers is submitted at height c_height; its conflict-on-chain fact comes from the
+       record table model, everything else about it is in order *)
 | CPack (maxtx : nat) (maxsize maxsysfee hdr real_hdr : N) (txs : list (N * N)) (k : nat).
     (* (size, system fee) in pool order; ApplyPolicyToTxSet kept the first k; hdr = expected size without
        transactions used by the code, real_hdr = encoded block size minus the transactions *)
@@ -55,6 +60,20 @@ Definition mk_pack_tx (i : nat) (p : N * N) : tx := mkTx (N.of_nat i) [2] (snd p
 Fixpoint mk_pack_txs (i : nat) (l : list (N * N)) : list tx :=
   match l with [] => [] | p :: r => mk_pack_tx i p :: mk_pack_txs (S i) r end.
 
+Definition with_conflict (t : txfacts) (b : bool) : txfacts :=
+  mkFacts (f_script_ok t) (f_vub t) (f_size t) (f_sysfee t) (f_netfee t) (f_attr_fee t) (f_policy_ok t)
+          (f_on_chain t) b (f_witnesses t) (f_attrs_ok t).
+
+Definition check_admit (base : N) (ch : chainfacts) (t : txfacts) (ws : list hwit) (pre : list tx) (x : tx)
+           (bal : list (payer * N)) (impl : option N) : N :=
+      let t' := with_witnesses t (wit_facts base ws) in
+      let s0 := fold_left (fun s y => snd (add fixed_cfg (bal_of bal) s y)) pre (new_pool 50) in
+      let r := fst (admit_tx ch t' (bal_of bal) s0 x) in
+      let model := match r with inr _ => None | inl e => Some (class_of e) end in
+      let accepted := match impl with None => true | Some _ => false end in
+      let spec := admissibleb ch t' && match fst (add fixed_cfg (bal_of bal) s0 x) with ROk => true | _ => false end in
+      code_of (option_eqb N.eqb model impl) (Bool.eqb spec accepted).
+
 Definition check_case (c : case) : N :=
   match c with
   | CShape base s inv ver verif_len calc_fee_impl calc_size_impl vm_gas wit_size =>
@@ -70,14 +89,13 @@ Definition check_case (c : case) : N :=
       let within := forallb (fun s => calc_fee base s <=? maxgas) shapes in
       (* specification: when every witness fits the verification gas limit, accepted exactly from the calculated fee on *)
       code_of (Bool.eqb model accepted) (if within then Bool.eqb accepted (0 <=? delta)%Z else negb accepted)
-  | CAdmit base ch t ws pre x bal impl =>
-      let t' := with_witnesses t (wit_facts base ws) in
-      let s0 := fold_left (fun s y => snd (add fixed_cfg (bal_of bal) s y)) pre (new_pool 50) in
-      let r := fst (admit_tx ch t' (bal_of bal) s0 x) in
-      let model := match r with inr _ => None | inl e => Some (class_of e) end in
-      let accepted := match impl with None => true | Some _ => false end in
-      let spec := admissibleb ch t' && match fst (add fixed_cfg (bal_of bal) s0 x) with ROk => true | _ => false end in
-      code_of (option_eqb N.eqb model impl) (Bool.eqb spec accepted)
+  | CAdmit base ch t ws pre x bal impl => check_admit base ch t ws pre x bal impl
+  | CHist base ch mtb events h signers t ws x bal impl =>
+      let es := map (fun e : N * list N * list N => let '(i, sg, hs) := e in mkEvent i sg hs) events in
+      let m := has_conflict (build es) h signers (c_height ch) mtb in
+      if Bool.eqb m (conflict_spec es h signers (c_height ch) mtb) then
+        check_admit base ch (with_conflict t m) ws [] x bal impl
+      else 3
   | CPack maxtx maxsize maxsysfee hdr real_hdr txs k =>
       let l := mk_pack_txs 0 txs in
       let b := apply_policy maxtx maxsize maxsysfee (fun _ => hdr) l in
